@@ -1,10 +1,10 @@
 package main
 
 import (
-	"runtime"
 	"errors"
 	"io"
 	"net"
+	"runtime"
 	"sync"
 	"time"
 )
